@@ -32,15 +32,22 @@ K_OPEN = 'fork-inside-open-db_session:child-statements-go-to-the-parents-connect
 class P:
     me = 0            # logical pid (0 = root, children numbered in the order of the fork events of the script)
     realmap = {}      # real pid -> logical pid, for this process and its ancestors
-    created = 0       # connections created by this process so far
-    log = []          # [kind, connection] for every statement / close() this process issued
+    created = {}      # pool kind -> connections (session pools) created by this process so far
+    log = {}          # pool kind -> [what, connection] for every statement / close() this process issued
+    cur = None        # the pool kind whose operation is being executed (several kinds are driven side by side in one process tree)
     fail = None       # armed failure for the next Pool._connect: 'connect' (no connection object) | 'init' (initialisation raises)
 
 def p_reset():
-    P.me = 0; P.realmap = {os.getpid(): 0}; P.created = 0; P.log = []
+    P.me = 0; P.realmap = {os.getpid(): 0}; P.created = {}; P.log = {}
 
 def p_become(logical):
-    P.me = logical; P.realmap = dict(P.realmap); P.realmap[os.getpid()] = logical; P.created = 0; P.log = []
+    P.me = logical; P.realmap = dict(P.realmap); P.realmap[os.getpid()] = logical; P.created = {}; P.log = {}
+
+def p_stamp(obj):
+    obj.kind = P.cur; n = P.created.get(P.cur, 0); obj.tag = (os.getpid(), n); P.created[P.cur] = n + 1
+
+def p_log(obj, entry):
+    P.log.setdefault(obj.kind, []).append(entry)
 
 def canon(con):
     return None if con is None else [P.realmap.get(con.tag[0], 'pid?'), con.tag[1]]
@@ -50,16 +57,16 @@ class TrackCon(sqlite3.Connection):
         if P.fail == 'connect':
             P.fail = None; raise sqlite3.OperationalError('injected: the connection cannot be opened')
         super().__init__(*a, **k)
-        self.tag = (os.getpid(), P.created); P.created += 1
+        p_stamp(self)
     def execute(self, sql, *a):
         if P.fail == 'init' and sql.upper().startswith('PRAGMA'):
             P.fail = None; raise sqlite3.OperationalError('injected: initialisation of the new connection fails')
-        if sql == MARK: P.log.append(['stmt', canon(self)])
+        if sql == MARK: p_log(self, ['stmt', canon(self)])
         return super().execute(sql, *a)
     def rollback(self):
-        P.log.append(['stmt', canon(self)]); return super().rollback()
+        p_log(self, ['stmt', canon(self)]); return super().rollback()
     def close(self):
-        P.log.append(['close', canon(self)]); return super().close()
+        p_log(self, ['close', canon(self)]); return super().close()
 
 # ---- OraPool: the real class over a fake cx_Oracle.SessionPool (no Oracle client/server here) that stamps the creating pid
 
@@ -67,17 +74,17 @@ class FakeSessionPool(object):
     def __init__(self, **kwargs):
         if P.fail == 'connect':
             P.fail = None; raise RuntimeError('injected: SessionPool cannot be created')
-        self.tag = (os.getpid(), P.created); P.created += 1
+        p_stamp(self)
     def acquire(self):
         if P.fail == 'connect':
             P.fail = None; raise RuntimeError('injected: acquire fails')
         return FakeOraConn(self)
-    def release(self, con): P.log.append(['release', canon(con.pool), canon(self)])
-    def drop(self, con): P.log.append(['release', canon(con.pool), canon(self)])
+    def release(self, con): p_log(self, ['release', canon(con.pool), canon(self)])
+    def drop(self, con): p_log(self, ['release', canon(con.pool), canon(self)])
 
 class FakeOraConn(object):
-    def __init__(self, pool): self.pool = pool; self.tag = pool.tag
-    def execute(self, sql): P.log.append(['stmt', canon(self.pool)])
+    def __init__(self, pool): self.pool = pool; self.tag = pool.tag; self.kind = pool.kind
+    def execute(self, sql): p_log(self, ['stmt', canon(self.pool)])
 
 def make_ora_pool():
     ponyutil.add_stubs()
@@ -85,6 +92,7 @@ def make_ora_pool():
     from pony.orm.dbproviders import oracle
     cx_Oracle.SessionPool = FakeSessionPool
     oracle.OraPool.forked_pools[:] = []
+    P.cur = 'oracle'
     return oracle.OraPool(user='u', password='p', dsn='d')
 
 def make_pool(kind, path):
@@ -104,12 +112,13 @@ def write_all(fd, data):
         n = os.write(fd, data); data = data[n:]
 
 def interp(kind, events, path):
-    """run the script on the real pool; returns {logical pid: report} for the whole process tree"""
+    """run the script on the real pool class(es); `kind` is one pool kind (-> {logical pid: report} for the whole process tree) or a
+    list of kinds driven side by side in ONE process tree (-> {kind: {logical pid: report}}): a fork is the expensive step here"""
+    kinds = [kind] if isinstance(kind, str) else list(kind)
     Pool.forked_connections[:] = []
     p_reset()
-    ora = kind == 'oracle'
-    pool = make_ora_pool() if ora else make_pool(kind, path)
-    held = None; obs = []; reports = {}; child_fd = None; nextpid = 1
+    pools = {k: (make_ora_pool() if k == 'oracle' else make_pool(k, path)) for k in kinds}
+    held = {k: None for k in kinds}; obs = {k: [] for k in kinds}; reports = {k: {} for k in kinds}; child_fd = None; nextpid = 1
     try:
         for ev in events:
             if ev[0] == 'fork':
@@ -121,58 +130,65 @@ def interp(kind, events, path):
                 if pid == 0:
                     signal.alarm(600)
                     os.close(r); child_fd = w
-                    p_become(newpid); obs = []; reports = {}
+                    p_become(newpid); obs = {k: [] for k in kinds}; reports = {k: {} for k in kinds}
                 else:
                     os.close(w); data = read_all(r); os.close(r); os.waitpid(pid, 0)
-                    reports.update(json.loads(data.decode()))
+                    for k, v in json.loads(data.decode()).items(): reports[k].update(v)
                 continue
             _, actor, act = ev
             if actor != P.me: continue
-            try:
-                if act in ('connect', 'connectFail', 'connectInitFail'):
-                    assert held is None          # SessionCache.connect: `assert cache.connection is None`
-                    # failure oracle for pool._connect(): raises only if _connect is actually reached by this call
-                    P.fail = None if act == 'connect' else 'connect' if (act == 'connectFail' or kind == 'base') else 'init'
-                    try: con, is_new = pool.connect()
-                    finally: P.fail = None
-                    held = con
-                    obs.append([act, canon(con.pool) if ora else canon(con), bool(is_new)])
-                elif act == 'stmt':
-                    try:
-                        if held is not None: held.execute(MARK)
-                    except sqlite3.ProgrammingError: pass      # statement sent to a connection that was closed under the session (model: logged as issued)
-                    obs.append(['stmt', 'ok'])
-                elif act == 'release':
-                    h, held = held, None
-                    if h is not None: pool.release(h)
-                    obs.append(['release', 'ok'])
-                elif act == 'drop':
-                    h, held = held, None
-                    if h is not None: pool.drop(h)
-                    obs.append(['drop', 'ok'])
-                else:
-                    pool.disconnect(); obs.append(['disconnect', 'ok'])
-            except Exception as e:
-                obs.append([act, type(e).__name__])
-        pid_attr = hasattr(pool, 'pid')
-        if ora:
-            reports[str(P.me)] = {'obs': obs, 'cx': canon(pool.cx_pool), 'poolpid': P.realmap.get(pool.pid, 'pid?'),
-                                  'forked': [[canon(c), P.realmap.get(p, 'pid?')] for c, p in pool.forked_pools],
-                                  'held': canon(held.pool) if held is not None else None, 'log': P.log}
-        else: reports[str(P.me)] = {
-            'obs': obs, 'con': canon(pool.con), 'pidAttr': pid_attr,
-            'poolpid': (P.realmap.get(pool.pid, 'pid?') if pool.pid is not None else None) if pid_attr else None,
-            'forked': [[canon(c), P.realmap.get(p, 'pid?') if p is not None else None] for c, p in pool.forked_connections],
-            'held': canon(held), 'log': P.log}
+            for k in kinds:
+                pool = pools[k]; ora = k == 'oracle'; P.cur = k
+                aname = 'connectFail' if (ora and act == 'connectInitFail') else act      # OraPool has no separate initialisation step
+                try:
+                    if act in ('connect', 'connectFail', 'connectInitFail'):
+                        assert held[k] is None          # SessionCache.connect: `assert cache.connection is None`
+                        # failure oracle for pool._connect(): raises only if _connect is actually reached by this call
+                        P.fail = None if act == 'connect' else 'connect' if (act == 'connectFail' or k in ('base', 'oracle')) else 'init'
+                        try: con, is_new = pool.connect()
+                        finally: P.fail = None
+                        held[k] = con
+                        obs[k].append([aname, canon(con.pool) if ora else canon(con), bool(is_new)])
+                    elif act == 'stmt':
+                        try:
+                            if held[k] is not None: held[k].execute(MARK)
+                        except sqlite3.ProgrammingError: pass      # statement sent to a connection that was closed under the session (model: logged as issued)
+                        obs[k].append(['stmt', 'ok'])
+                    elif act == 'release':
+                        h, held[k] = held[k], None
+                        if h is not None: pool.release(h)
+                        obs[k].append(['release', 'ok'])
+                    elif act == 'drop':
+                        h, held[k] = held[k], None
+                        if h is not None: pool.drop(h)
+                        obs[k].append(['drop', 'ok'])
+                    else:
+                        pool.disconnect(); obs[k].append(['disconnect', 'ok'])
+                except Exception as e:
+                    obs[k].append([aname, type(e).__name__])
+        for k in kinds:
+            pool = pools[k]
+            if k == 'oracle':
+                reports[k][str(P.me)] = {'obs': obs[k], 'cx': canon(pool.cx_pool), 'poolpid': P.realmap.get(getattr(pool, 'pid', 'unset'), 'pid?'),
+                                         'forked': [[canon(c), P.realmap.get(p, 'pid?')] for c, p in pool.forked_pools],
+                                         'held': canon(held[k].pool) if held[k] is not None else None, 'log': P.log.get(k, [])}
+            else:
+                pid_attr = hasattr(pool, 'pid')
+                reports[k][str(P.me)] = {
+                    'obs': obs[k], 'con': canon(pool.con), 'pidAttr': pid_attr,
+                    'poolpid': (P.realmap.get(pool.pid, 'pid?') if pool.pid is not None else None) if pid_attr else None,
+                    # Pool.forked_connections is ONE class-level list shared by every pool of the process: this kind's entries
+                    'forked': [[canon(c), P.realmap.get(p, 'pid?') if p is not None else None] for c, p in pool.forked_connections if c.kind == k],
+                    'held': canon(held[k]), 'log': P.log.get(k, [])}
     except BaseException as e:
         if child_fd is not None:
-            try: write_all(child_fd, json.dumps({str(P.me): {'crash': repr(e)}}).encode())
+            try: write_all(child_fd, json.dumps({k: {str(P.me): {'crash': repr(e)}} for k in kinds}).encode())
             finally: os._exit(1)
         raise
     if child_fd is not None:
         try: write_all(child_fd, json.dumps(reports).encode())
         finally: os._exit(0)
-    return reports
+    return reports[kind] if isinstance(kind, str) else reports
 
 def model_reports(out):
     """the model's final world in the shape of `interp`'s result"""
@@ -235,6 +251,13 @@ FIXED = [
     [['act', 0, 'connectFail'], ['act', 0, 'connectInitFail'], ['act', 0, 'connect'], ['act', 0, 'release'], ['act', 0, 'connectFail'], ['act', 0, 'stmt'], ['act', 0, 'release'], ['fork', 0], ['act', 1, 'connectInitFail'], ['act', 1, 'disconnect'], ['act', 1, 'connect']],
 ]
 
+def connect_raises(real, reps):
+    """a plain connect that the model says succeeds but that raised on the real pool: (process, observation)"""
+    for p in sorted(real):
+        for o, m in zip(real[p].get('obs', []), reps.get(p, {}).get('obs', [])):
+            if o[0] == 'connect' and isinstance(o[1], str) and isinstance(m[1], list): return p, o
+    return None
+
 def foreign_connect(real):
     for p, r in sorted(real.items()):
         for o in r.get('obs', []):
@@ -263,56 +286,72 @@ def shrink(kind, script, path):
         i += 1
     return cur
 
+KINDS = ['base', 'sqliteFile', 'sqliteMemory', 'oracle']
+
+def ora_events(script):
+    return [e if e[0] == 'fork' or e[2] != 'connectInitFail' else ['act', e[1], 'connectFail'] for e in script]
+
 def pool_tie(ctx, work):
     shrunk = set()
     if not ctx.driver.ok:
         ctx.note('driver unavailable: pool tie skipped'); return
     rng = ctx.rng
-    scripts = []
-    for kind in ('base', 'sqliteFile', 'sqliteMemory'):
-        for s in FIXED: scripts.append((kind, s))
-        for _ in range(ctx.scale(5, 150)): scripts.append((kind, random_script(rng, 14)))
-    outs = ctx.driver('C36', [{'op': 'run', 'kind': k, 'events': s} for k, s in scripts])
-    # the real runs happen in a small helper process (this file run as a script): fork() of the big framework process is several times slower
-    hp = subprocess.run([sys.executable, os.path.abspath(__file__), '--helper', work], input=json.dumps(scripts), stdout=subprocess.PIPE, stderr=subprocess.PIPE, text=True, timeout=3000)
+    scripts = list(FIXED) + list(ORA_FIXED) + ORA_MINIMAL + [random_script(rng, 14) for _ in range(ctx.scale(8, 300))]
+    reqs = []
+    for s_ in scripts:
+        reqs += [{'op': 'run', 'kind': k, 'events': s_} for k in KINDS[:3]] + [{'op': 'ora', 'events': ora_events(s_)}]
+    all_outs = ctx.driver('C36', reqs)
+    # the real runs happen in a small helper process (this file run as a script): fork() of the big framework process is several times
+    # slower; and the four pool kinds are driven side by side in ONE process tree per script (a fork costs 0.15 s and more here)
+    hp = subprocess.run([sys.executable, os.path.abspath(__file__), '--helper', work], input=json.dumps([[KINDS, s_] for s_ in scripts]), stdout=subprocess.PIPE, stderr=subprocess.PIPE, text=True, timeout=3000)
     try: reals = json.loads(hp.stdout)
     except ValueError: raise RuntimeError('C36 helper failed: ' + hp.stderr[-500:])
     ctx.count('tie:real-runs-in-helper', len(reals))
-    for i, ((kind, script), out, real) in enumerate(zip(scripts, outs, reals)):
-        if 'driver_error' in out:
-            ctx.divergence('driver rejected the script', {'kind': kind, 'events': script}, model=out, impl=None); continue
+    ctx.count('tie:real-forks', sum(1 for s_ in scripts for e in s_ if e[0] == 'fork'))
+    for i, (script, real4) in enumerate(zip(scripts, reals)):
         path = os.path.join(work, 'tie%d.sqlite' % (i % 7))
-        reps, cn = model_reports(out); model_fill(reps, cn, script, out)
-        forks = sum(1 for e in script if e[0] == 'fork')
-        ctx.case(['pool-tie', kind, script], nontrivial=forks > 0, kind='tie:pool-script:' + kind)
-        ctx.count('tie:forks=%d' % forks)
-        ctx.count('tie:disciplined=%s' % (not out['forkWhileHeld'] and not out['staleDisconnect']))
-        if out['forkWhileHeld']: ctx.count('tie:branch:fork-while-held')
-        if out['staleDisconnect']: ctx.count('tie:branch:stale-disconnect')
-        if out['assertErrors']: ctx.count('tie:branch:assert-error')
-        if any(q['forked'] for q in out['procs']): ctx.count('tie:branch:parked-inherited-connection')
-        if any(e[1][1] != e[0] for e in out['closed']): ctx.count('tie:branch:foreign-close')
-        if any(e[1][1] != e[0] for e in out['stmts']): ctx.count('tie:branch:foreign-stmt')
-        fl = [o[0] for ev, o in zip(script, out['outs']) if ev[0] == 'act' and o and o[0].get('failed')]
-        if fl: ctx.count('tie:branch:connect-failed')
-        if any(o['closed'] for o in fl): ctx.count('tie:branch:connect-failed-after-creation(closed)')
-        if any(ev[0] == 'act' and ev[2] != 'connect' and ev[2].startswith('connect') and o and o[0].get('returned') for ev, o in zip(script, out['outs'])): ctx.count('tie:branch:failure-armed-but-pooled-connection-reused')
-        stale_fail = False
-        for j, ev in enumerate(script):
-            if ev[0] == 'act' and ev[2] in ('connectFail', 'connectInitFail') and out['outs'][j] and out['outs'][j][0].get('failed') and any(e[0] == 'act' and e[1] == ev[1] and e[2] == 'connect' for e in script[j + 1:]) and ev[1] != 0: stale_fail = True
-        if stale_fail: ctx.count('tie:branch:child-connect-fails-then-retries')
-        if real != reps:
-            bad = sorted(k for k in set(real) | set(reps) if real.get(k) != reps.get(k))
-            ctx.divergence('pool model and the real pool under os.fork() disagree', {'kind': kind, 'events': script, 'process': bad[0]},
-                           model=reps.get(bad[0]), impl=real.get(bad[0]))
-        # the theorem's statement evaluated on the REAL run: every connection returned to process p was created by p
-        bad = foreign_connect(real)
-        if bad and kind not in shrunk:
-            shrunk.add(kind)
-            small = shrink(kind, script, path)
-            p, o = foreign_connect(interp(kind, small, path))
-            ctx.violation('Pool.connect returned to a process a connection created by another process (its parent)', {'kind': kind, 'events': small, 'process': p},
-                          observed=o, expected='a connection created by process ' + p, key='pool-connect-foreign:%s:%s' % (kind, json.dumps(small)))
+        ora_check(ctx, script, all_outs[4 * i + 3], real4['oracle'], shrunk)
+        for kind, out in zip(KINDS[:3], all_outs[4 * i:4 * i + 3]):
+            real = real4[kind]
+            if 'driver_error' in out:
+                ctx.divergence('driver rejected the script', {'kind': kind, 'events': script}, model=out, impl=None); continue
+            reps, cn = model_reports(out); model_fill(reps, cn, script, out)
+            forks = sum(1 for e in script if e[0] == 'fork')
+            ctx.case(['pool-tie', kind, script], nontrivial=forks > 0, kind='tie:pool-script:' + kind)
+            ctx.count('tie:forks=%d' % forks)
+            ctx.count('tie:disciplined=%s' % (not out['forkWhileHeld'] and not out['staleDisconnect']))
+            if out['forkWhileHeld']: ctx.count('tie:branch:fork-while-held')
+            if out['staleDisconnect']: ctx.count('tie:branch:stale-disconnect')
+            if out['assertErrors']: ctx.count('tie:branch:assert-error')
+            if any(q['forked'] for q in out['procs']): ctx.count('tie:branch:parked-inherited-connection')
+            if any(e[1][1] != e[0] for e in out['closed']): ctx.count('tie:branch:foreign-close')
+            if any(e[1][1] != e[0] for e in out['stmts']): ctx.count('tie:branch:foreign-stmt')
+            fl = [o[0] for ev, o in zip(script, out['outs']) if ev[0] == 'act' and o and o[0].get('failed')]
+            if fl: ctx.count('tie:branch:connect-failed')
+            if any(o['closed'] for o in fl): ctx.count('tie:branch:connect-failed-after-creation(closed)')
+            if any(ev[0] == 'act' and ev[2] != 'connect' and ev[2].startswith('connect') and o and o[0].get('returned') for ev, o in zip(script, out['outs'])): ctx.count('tie:branch:failure-armed-but-pooled-connection-reused')
+            stale_fail = False
+            for j, ev in enumerate(script):
+                if ev[0] == 'act' and ev[2] in ('connectFail', 'connectInitFail') and out['outs'][j] and out['outs'][j][0].get('failed') and any(e[0] == 'act' and e[1] == ev[1] and e[2] == 'connect' for e in script[j + 1:]) and ev[1] != 0: stale_fail = True
+            if stale_fail: ctx.count('tie:branch:child-connect-fails-then-retries')
+            cr = connect_raises(real, reps)
+            if cr and ('raises', kind) not in shrunk:
+                shrunk.add(('raises', kind))
+                ctx.violation('Pool.connect raised in a process that holds no connection and whose _connect() does not fail: sessions of that process cannot use the database',
+                              {'kind': kind, 'events': script, 'process': cr[0]}, observed=cr[1], expected='a connection created by process ' + cr[0],
+                              key='pool-connect-raises:%s:%s' % (kind, cr[1][1]))
+            if real != reps:
+                bad = sorted(k for k in set(real) | set(reps) if real.get(k) != reps.get(k))
+                ctx.divergence('pool model and the real pool under os.fork() disagree', {'kind': kind, 'events': script, 'process': bad[0]},
+                               model=reps.get(bad[0]), impl=real.get(bad[0]))
+            # the theorem's statement evaluated on the REAL run: every connection returned to process p was created by p
+            bad = foreign_connect(real)
+            if bad and kind not in shrunk:
+                shrunk.add(kind)
+                small = shrink(kind, script, path)
+                p, o = foreign_connect(interp(kind, small, path))
+                ctx.violation('Pool.connect returned to a process a connection created by another process (its parent)', {'kind': kind, 'events': small, 'process': p},
+                              observed=o, expected='a connection created by process ' + p, key='pool-connect-foreign:%s:%s' % (kind, json.dumps(small)))
     Pool.forked_connections[:] = []
 
 # ---- OraPool tie
@@ -361,36 +400,32 @@ ORA_FIXED = [
 ]
 ORA_MINIMAL = [[['fork', 0], ['act', 1, 'connect']], [['fork', 0], ['act', 1, 'connectFail'], ['act', 1, 'connect']]]
 
-def ora_tie(ctx, work):
-    if not ctx.driver.ok:
-        ctx.note('driver unavailable: OraPool tie skipped'); return
-    rng = ctx.rng
-    scripts = list(ORA_FIXED) + ORA_MINIMAL + [random_ora_script(rng, 12) for _ in range(ctx.scale(6, 120))]
-    outs = ctx.driver('C36', [{'op': 'ora', 'events': s} for s in scripts])
-    hp = subprocess.run([sys.executable, os.path.abspath(__file__), '--helper', work], input=json.dumps([['oracle', s] for s in scripts]),
-                        stdout=subprocess.PIPE, stderr=subprocess.PIPE, text=True, timeout=3000)
-    try: reals = json.loads(hp.stdout)
-    except ValueError: raise RuntimeError('C36 helper (oracle) failed: ' + hp.stderr[-500:])
-    reported = False
-    for script, out, real in zip(scripts, outs, reals):
-        ctx.case(['ora-tie', script], nontrivial=any(e[0] == 'fork' for e in script), kind='tie:pool-script:oracle')
-        if 'driver_error' in out:
-            ctx.divergence('driver rejected the OraPool script', script, model=out, impl=None); continue
-        reps = ora_model_reports(script, out)
-        if any(q['forked'] for q in out['procs']): ctx.count('tie:ora:parked-inherited-session-pool')
-        if any(x['failed'] for o in out['outs'] for x in o): ctx.count('tie:ora:connect-failed')
-        if real != reps:
-            bad = sorted(k for k in set(real) | set(reps) if real.get(k) != reps.get(k))
-            ctx.divergence('OraPool model and the real OraPool (over a fake cx_Oracle.SessionPool) under os.fork() disagree', {'events': script, 'process': bad[0]},
-                           model=reps.get(bad[0]), impl=real.get(bad[0]))
-        fc = foreign_connect(real)
-        if fc and not reported:
-            reported = True
-            small = next((m for m in ORA_MINIMAL if foreign_connect(interp('oracle', m, None))), script)
-            p, o = foreign_connect(interp('oracle', small, None))
-            ctx.violation('OraPool.connect handed a process a connection acquired from a session pool created by another process (its parent)',
-                          {'kind': 'oracle (real OraPool over a pid-stamping fake cx_Oracle.SessionPool)', 'events': small, 'process': p},
-                          observed=o, expected='a connection from a session pool created by process ' + p, key='pool-connect-foreign:oracle:%s' % json.dumps(small))
+def ora_check(ctx, script, out, real, shrunk):
+    script = ora_events(script)
+    ctx.case(['ora-tie', script], nontrivial=any(e[0] == 'fork' for e in script), kind='tie:pool-script:oracle')
+    if 'driver_error' in out:
+        ctx.divergence('driver rejected the OraPool script', script, model=out, impl=None); return
+    reps = ora_model_reports(script, out)
+    if any(q['forked'] for q in out['procs']): ctx.count('tie:ora:parked-inherited-session-pool')
+    if any(x['failed'] for o in out['outs'] for x in o): ctx.count('tie:ora:connect-failed')
+    cr = connect_raises(real, reps)
+    if cr and ('raises', 'oracle') not in shrunk:
+        shrunk.add(('raises', 'oracle'))
+        ctx.violation('OraPool.connect raised in a process that holds no connection and whose session pool / acquire do not fail: sessions of that process cannot use the database',
+                      {'kind': 'oracle (real OraPool over a pid-stamping fake cx_Oracle.SessionPool)', 'events': script, 'process': cr[0]}, observed=cr[1],
+                      expected='a connection from a session pool created by process ' + cr[0], key='pool-connect-raises:oracle:%s' % cr[1][1])
+    if real != reps:
+        bad = sorted(k for k in set(real) | set(reps) if real.get(k) != reps.get(k))
+        ctx.divergence('OraPool model and the real OraPool (over a fake cx_Oracle.SessionPool) under os.fork() disagree', {'events': script, 'process': bad[0]},
+                       model=reps.get(bad[0]), impl=real.get(bad[0]))
+    fc = foreign_connect(real)
+    if fc and 'oracle' not in shrunk:
+        shrunk.add('oracle')
+        small = next((m for m in ORA_MINIMAL if foreign_connect(interp('oracle', m, None))), script)
+        p, o = foreign_connect(interp('oracle', small, None))
+        ctx.violation('OraPool.connect handed a process a connection acquired from a session pool created by another process (its parent)',
+                      {'kind': 'oracle (real OraPool over a pid-stamping fake cx_Oracle.SessionPool)', 'events': small, 'process': p},
+                      observed=o, expected='a connection from a session pool created by process ' + p, key='pool-connect-foreign:oracle:%s' % json.dumps(small))
 
 # ---------------------------------------------------------------------------------------------------------------
 # property oracle on real db_session
@@ -584,7 +619,6 @@ def run(ctx):
     try:
         model_witness(ctx)
         pool_tie(ctx, work)
-        ora_tie(ctx, work)
         n = 0
         for rep in range(ctx.scale(1, 4)):
             for point in ('idle', 'pooled', 'open'):
